@@ -6,6 +6,13 @@ from .c13_plan import PROFILE, plans, ASSUME, enum_plans
 def run(tier, seed):
     mc, sim = plans(tier)
     ck = nc.run_property("C13", tier, seed, "Inv13", PROFILE, mc, sim, 1500 if tier == "thorough" else 240, ASSUME, enum_plan=enum_plans(tier))
+    # the free grain: the tables agree with each other after every single thread step, under every interleaving
+    th = tier == "thorough"
+    nc.free_phase(ck, "C13", [
+        dict(cfg="A", depth=10 if th else 8, maxtime=2, alpha=["cerok", "req1"], faults=True, maxconn=1, invs=["TablesConsistent"],
+             sim=300 if th else 60, sim_depth=20, sim_alpha=["cerok", "req1", "dwr", "dpr"], sim_maxconn=3),
+        dict(cfg="B", depth=9 if th else 8, maxtime=3, alpha=["ceaok"], faults=True, maxconn=2, invs=["TablesConsistent"],
+             sim=300 if th else 60, sim_depth=20, sim_alpha=["ceaok", "dwr", "dpa"], sim_maxconn=3)], seed)
     return ck.finish()
 
 
